@@ -229,7 +229,7 @@ func ruleTAIL(c *Ctx) {
 	// TAIL.2: no growth on the path
 	var probs []string
 	frameFields := map[string]bool{"framesIndex": true, "curFrame": true, "curInsts": true}
-	ipReset, spAdj := false, false
+	ipReset := false
 	for _, s := range tailIf.Body.List {
 		ast.Inspect(s, func(n ast.Node) bool {
 			switch x := n.(type) {
@@ -243,9 +243,6 @@ func ruleTAIL(c *Ctx) {
 							if k, ok := ConstInt(p, x.Rhs[i]); ok && k == -1 {
 								ipReset = true
 							}
-						}
-						if f.Name() == "sp" && x.Tok == token.SUB_ASSIGN && strings.Contains(w.Src(x.Rhs[i]), "+ 1") {
-							spAdj = true
 						}
 					}
 				}
@@ -262,45 +259,9 @@ func ruleTAIL(c *Ctx) {
 	if !ipReset {
 		probs = append(probs, "does not restart the function (ip = -1)")
 	}
-	if !spAdj {
-		probs = append(probs, "does not pop the arguments and the callee (sp -= numArgs + 1)")
-	}
-	// argument copy: stack[basePointer+p] = stack[sp-numArgs+p], directly into the slot
-	copyOK := false
-	for _, s := range tailIf.Body.List {
-		fs, ok := s.(*ast.ForStmt)
-		if !ok || len(fs.Body.List) != 1 {
-			continue
-		}
-		as, ok := fs.Body.List[0].(*ast.AssignStmt)
-		if !ok || len(as.Lhs) != 1 {
-			continue
-		}
-		// names do not matter: the loop runs a counter below N, and copies
-		// recv.stack[recv.sp-N+counter] to recv.stack[…basePointer+counter]
-		l, r := w.SrcRecv(vi.Fn, as.Lhs[0]), w.SrcRecv(vi.Fn, as.Rhs[0])
-		cb0, ok := ast.Unparen(fs.Cond).(*ast.BinaryExpr)
-		if !ok {
-			continue
-		}
-		cop, cx, cy := lessForm(cb0)
-		if cop != token.LSS {
-			continue
-		}
-		cnt, ok1 := ast.Unparen(cx).(*ast.Ident)
-		lim, ok2 := ast.Unparen(cy).(*ast.Ident)
-		if !ok1 || !ok2 {
-			continue
-		}
-		if strings.HasPrefix(l, "recv.stack[") && strings.Contains(l, "basePointer+"+cnt.Name+"]") && strings.HasPrefix(r, "recv.stack[") && strings.Contains(r, "sp-"+lim.Name+"+"+cnt.Name+"]") {
-			if strings.HasSuffix(strings.ReplaceAll(w.Src(fs.Init), " ", ""), ":=0") {
-				copyOK = true
-			}
-		}
-	}
-	if !copyOK {
-		probs = append(probs, "arguments are not copied slot by slot to basePointer+0..numArgs-1 (directly into the stack slots, so cells captured by earlier closures keep their values)")
-	}
+	// stack discipline of the branch, interpreted over the stack pointer:
+	// N+1 slots dropped, arguments copied slot by slot onto the parameters
+	probs = append(probs, w.tailReuse(vi, tailIf.Body)...)
 	c.check(len(probs) == 0, "TAIL.2/no-growth", tailIf, "reuses the frame: no write to framesIndex/curFrame/curInsts, arguments copied into the parameter slots, sp and ip reset", strings.Join(dedupStrings(probs), "; "))
 	// the frame push happens only after the tail test
 	pushAfter := true
